@@ -372,7 +372,7 @@ pub fn generate(tier: &str, seed: u64) -> Vec<Rec> {
                     let stp = if len == 0 { 0 } else { (domain + len / 2) / len };
                     if len == 0 || len > n || len * stp > domain { continue; }
                     // sweep: every k in [-2N ext, 2N ext) (both directions), a few beyond, and the i64 extremes
-                    let full_sweep = thorough || n == 8 || (ri == 4 && (n == 16 || ext <= 2));
+                    let full_sweep = thorough || (n == 8 && ri != 2 && ri != 5 && ri != 6) || (ri == 4 && (n == 16 || ext <= 2));
                     let mut ks: Vec<i128> = if full_sweep { (-t..t).map(|k| k as i128).collect() }
                                             else { (0..24).map(|_| rng.range(-t, t - 1) as i128).collect() };
                     ks.extend([-t - 1, -t - 3, t, t + 5, 3 * t + 1, -5 * t - 2, i64::MIN, i64::MAX, i64::MIN + 1, 1 << 62, -(1 << 62) - 7].map(|k| k as i128));
@@ -439,7 +439,7 @@ pub fn generate(tier: &str, seed: u64) -> Vec<Rec> {
                     let len = 1usize << rng.below(n.trailing_zeros() as u64 + 1);
                     let f = rand_f(&mut rng, len, kmsg, b as usize);
                     let sk = to128(&sk_lwe_of(&c));
-                    let idxs: Vec<i64> = if (n == 8 && b == 19) || thorough { (0..t).collect() } else { let mut v: Vec<i64> = (0..10).map(|_| rng.range(0, t - 1)).collect(); v.extend([0, 1, t - 1, t / 2]); v };
+                    let idxs: Vec<i64> = if (n == 8 && b == 19 && dir == 0) || thorough { (0..t).collect() } else { let mut v: Vec<i64> = (0..10).map(|_| rng.range(0, t - 1)).collect(); v.extend([0, 1, t - 1, t / 2]); v };
                     for idx in idxs {
                         let mut l2n = vec![0i64; c.n_lwe + 1];
                         l2n[0] = idx;
